@@ -13,6 +13,7 @@ import random
 import tempfile
 
 import torch
+from .core import sint
 
 from . import tlc, tv
 
@@ -92,7 +93,7 @@ def v5(t):
     v = float(t)
     if v != v:
         return -777777
-    return int(round(max(-3.0, min(3.0, v)) * 100000))      # clamped: anything outside [0, 1] is rejected by the spec without overflowing it
+    return sint(max(-3.0, min(3.0, v)) * 100000)      # clamped: anything outside [0, 1] is rejected by the spec without overflowing it
 
 
 def rand_batch(rng, B, force=None):
@@ -173,7 +174,7 @@ def tv_events(rng, tier):
                     e.update({"ev": "Forward", "ber5": v5(b1), "bler5": v5(b2), "ber5s": v5(b1s), "bler5s": v5(b2s),
                               "c_tb": c[0], "c_eb": c[1], "c_tbl": c[2], "c_ebl": c[3], "sum5": -1, "none": [-1]})
                     if not none_mode and rng.random() < 0.5:
-                        e["sum5"] = int(round(min(float(BlockErrorRate(block_size=B, reduction="sum")(X, Y)), 20000.0) * 100000))      # a count, not a rate: no clamp to [0, 1]
+                        e["sum5"] = sint(min(float(BlockErrorRate(block_size=B, reduction="sum")(X, Y)), 20000.0) * 100000)      # a count, not a rate: no clamp to [0, 1]
                         e["none"] = [int(v) for v in BlockErrorRate(block_size=B, reduction="none")(X, Y).tolist()]
                 evs.append(e)
             elif op == "compute":
